@@ -580,7 +580,9 @@ LEAN_LEMMAS = {
     "C10": [("lean/Induction.lean", "invariant_fold", "one bounded update keeps the parameter in range => any update history does")],
     "C11": [("lean/Induction.lean", "batch_projection_fold", "per-step batch projection => whole input sequences")],
     "C13": [("lean/Induction.lean", "refinement_fold", "per-setter refinement => any sequence of reconfigurations")],
-    "C19": [("lean/Induction.lean", "invariant_fold", "online encoders: invariant at loop entry + preserved by one arbitrary iteration of the real loop body => holds at every iteration, for any number of steps")],
+    "C19": [("lean/ClosedForms.lean", "prefix_sum_gap", "offline refractory raster: every interval >= rho (proved on the real code at an arbitrary bin) => cumulative times k bins apart differ by >= k*rho"),
+            ("lean/ClosedForms.lean", "prefix_sum_lower", "offline refractory raster: cumulative times are >= (bin + 1)*rho, in particular never negative"),
+            ("lean/Induction.lean", "invariant_fold", "online encoders: invariant at loop entry + preserved by one arbitrary iteration of the real loop body => holds at every iteration, for any number of steps")],
     "C20": [("lean/Induction.lean", "grid_invariant", "Victor-Purpura table: invariant on row 0 / column 0 + per-cell step on the real loop body => invariant on every cell, so on the returned cell")],
     "C15": [("lean/Induction.lean", "invariant_fold", "representation invariant re-established by every operation => holds after every operation sequence")],
 }
